@@ -248,6 +248,14 @@ class VOffsetProbe(_VFloatProbe):
         return data.data + offset
 
 
+class VTagProbe(_VFloatProbe):
+    """Returns "<value>:<tag>" — the result depends on the exact (type-sensitive, order-sensitive) tag string."""
+
+    def _process_logic(self, data, tag: str = "t"):
+        REC.add("VTagProbe", data, {"tag": tag})
+        return f"{data.data}:{tag}"
+
+
 class VNoneProbe(_VFloatProbe):
     """Probe whose result is None (a context key that is present with the value None)."""
 
